@@ -216,11 +216,18 @@ func checkPlan(w *out.W, d dplan) {
 		down = append(down, revs[i]...)
 	}
 	nontriv := false
+	var tags []string
 	for _, r := range revs {
 		if len(r) > 0 {
 			nontriv = true
 		}
+		for _, s := range r {
+			if strings.Contains(s, "\n") && len(tags) == 0 {
+				tags = append(tags, "multiline-reverse")
+			}
+		}
 	}
+	d.desc += " tags=[" + strings.Join(tags, ",") + "]"
 	now := "-"
 	for _, f := range formatters {
 		files, err := f.f.Format(p)
@@ -229,6 +236,9 @@ func checkPlan(w *out.W, d dplan) {
 			continue
 		}
 		for i, fl := range files {
+			if f.name == "atlas" {
+				continue // the default formatter has no down section and is C07's (Lex/Fmt*.v)
+			}
 			obs = append(obs, fmt.Sprintf("%s.%d %s", f.name, i, hs(string(fl.Bytes()))))
 		}
 		var upSec, downSec string
